@@ -105,7 +105,8 @@ def _pat(p, fn):
                      {"prop": p, "fn": fn, "guard": None})
 
 
-def corpus() -> List[Tuple[str, MetaModel]]:
+def corpus(rng: random.Random = None) -> List[Tuple[str, MetaModel]]:
+    rng = rng or random.Random(0)
     out = []
     mm = MetaModel(doc=None, version="V1", xml_namespace="urn:c11:bytes")
     mm.classes = [Class("Blob", properties=[Property("data", TPrim("bytearray")),
@@ -155,24 +156,159 @@ def corpus() -> List[Tuple[str, MetaModel]]:
         Class("Parcel", properties=[Property("items", TList(TOur("Basis"))), Property("one", TOpt(TOur("Mid")))],
               invariants=[_len(">=", "items", 1)])]
     out.append(("tightening-chain", mm))
+    out.append(("inherited-tightening", inherited_tightening(rng)))
+    out.append(("cprim-chain", cprim_chain(rng)))
+    out.append(("zero-bounds", zero_bounds(rng)))
     return out
 
 
+def inherited_tightening(rng: random.Random) -> MetaModel:
+    """(i) bytearray / str / list properties defined in a parent, their minimum and maximum
+    tightened by invariants of a descendant and of a grand-descendant (bounds drawn from the
+    seed; the parent has its own bound or none)."""
+    mm = MetaModel(doc=None, version="V1", xml_namespace="urn:c11:inherited")
+    props = [Property("blob", TPrim("bytearray")), Property("label", TPrim("str")),
+             Property("numbers", TList(TPrim("int"))), Property("spare", TOpt(TPrim("bytearray"))),
+             Property("memo", TOpt(TPrim("str")))]
+    top, mid, low = [], [], []
+    for p in props:
+        guarded = isinstance(p.type, TOpt)
+        hi0 = rng.randint(10, 16)
+        hi1 = rng.randint(5, 8)
+        hi2 = rng.randint(3, hi1 - 1)
+        lo1 = rng.randint(1, 2)
+        lo2 = rng.randint(lo1, 3)
+        if rng.random() < 0.6:
+            top.append(_len("<=", p.name, hi0, guarded))
+        mid.append(_len(rng.choice(["<=", "<"]), p.name, hi1, guarded))
+        if mid[-1].meta["op"] == "<":
+            hi1 -= 1
+        mid.append(_len(">=", p.name, lo1, guarded))
+        low.append(_len("<=", p.name, min(hi2, hi1), guarded))
+        low.append(_len(">=", p.name, lo2, guarded))
+    for k, inv in enumerate(top + mid + low):
+        inv.description = f"Rule {k}: {inv.description}"
+    mm.classes = [
+        Class("Vault", is_abstract=True, with_model_type=True, properties=props, invariants=top),
+        Class("Small_vault", bases=["Vault"], invariants=mid,
+              properties=[Property("extra", TOpt(TPrim("int")))]),
+        Class("Tiny_vault", bases=["Small_vault"], invariants=low),
+        Class("Depot", properties=[Property("vaults", TList(TOur("Vault")))])]
+    return mm
+
+
+def cprim_chain(rng: random.Random) -> MetaModel:
+    """(ii) chains of constrained primitives of depth 3..5 (str) and 3 (bytearray), declared
+    in a non-topological order (a child before its parent), used as property types."""
+    mm = MetaModel(doc=None, version="V1", xml_namespace="urn:c11:cprims")
+    mm.verification_functions = [
+        VerificationFunction("matches_lower", "pattern", [("text", TPrim("str"))], pattern="^[a-z]*$"),
+        VerificationFunction("matches_word", "pattern", [("text", TPrim("str"))], pattern="^[a-z0-9_]*$")]
+    depth = rng.randint(3, 5)
+    me = Name("self")
+
+    def clen(op, n, k):
+        return Invariant(f"Level {k} length {op} {n}", Cmp(op, Call("len", (me,)), Const(n)), "len_bound",
+                         {"subject": "self", "op": op, "n": n, "swapped": False, "guard": None})
+
+    def cpat(fn, k):
+        return Invariant(f"Level {k} matches {fn}", Call(fn, (me,)), "pattern", {"fn": fn, "subject": "self"})
+
+    cps = []
+    hi = rng.randint(8, 12)
+    for k in range(depth):
+        invs = []
+        if k == 0:
+            invs.append(clen("<=", hi, k))
+        elif k == 1:
+            invs.append(cpat("matches_word", k))
+        elif k == 2:
+            invs.append(clen(">=", rng.randint(1, 2), k))
+        elif k == 3:
+            invs.append(cpat("matches_lower", k))
+        else:
+            invs.append(clen("<=", rng.randint(4, hi - 1), k))
+        cps.append(ConstrainedPrimitive(f"Word_{k}", "str", bases=[f"Word_{k - 1}"] if k else [],
+                                        invariants=invs))
+    bhi = rng.randint(7, 11)
+    cps += [ConstrainedPrimitive("Chunk_0", "bytearray", invariants=[clen("<=", bhi, 10)]),
+            ConstrainedPrimitive("Chunk_1", "bytearray", bases=["Chunk_0"], invariants=[clen(">=", 1, 11)]),
+            ConstrainedPrimitive("Chunk_2", "bytearray", bases=["Chunk_1"],
+                                 invariants=[clen("<=", rng.randint(3, bhi - 1), 12)])]
+    mm.constrained_primitives = cps
+    last = f"Word_{depth - 1}"
+    mm.classes = [Class("Carrier", properties=[
+        Property("word", TOur(last)), Property("middle", TOpt(TOur("Word_2"))),
+        Property("words", TList(TOur(last))), Property("chunk", TOur("Chunk_2")),
+        Property("chunks", TOpt(TList(TOur("Chunk_1"))))])]
+    # declaration order: the str chain always most-derived first (every level is declared
+    # before all of its ancestors); the bytearray chain interleaved in a seeded order
+    words = [c.name for c in reversed(cps) if c.name.startswith("Word_")]
+    chunks = [c.name for c in cps if c.name.startswith("Chunk_")]
+    rng.shuffle(chunks)
+    order = words[:]
+    for c in chunks:
+        order.insert(rng.randint(0, len(order)), c)
+    mm.decl_order = order
+    return mm
+
+
+def zero_bounds(rng: random.Random) -> MetaModel:
+    """(iii) bounds that are zero: lists and strings that must stay empty, at the defining
+    class and imposed by a descendant on an inherited list."""
+    mm = MetaModel(doc=None, version="V1", xml_namespace="urn:c11:zero")
+    forms = [("<", 1), ("<=", 0), ("==", 0)]
+    rng.shuffle(forms)
+    (o1, n1), (o2, n2), (o3, n3) = forms
+    mm.classes = [
+        Class("Quiet", properties=[Property("values", TList(TPrim("str"))),
+                                   Property("numbers", TOpt(TList(TPrim("int")))),
+                                   Property("text", TPrim("str")), Property("remark", TOpt(TPrim("str")))],
+              invariants=[_len(o1, "values", n1), _len(o2, "numbers", n2, guarded=True),
+                          _len(o3, "text", n3), _len(o1, "remark", n1, guarded=True)]),
+        Class("Shelf", is_abstract=True, with_model_type=True,
+              properties=[Property("things", TList(TPrim("int"))), Property("tag", TPrim("str"))]),
+        Class("Empty_shelf", bases=["Shelf"], invariants=[_len(o2, "things", n2), _len(o3, "tag", n3)]),
+        Class("Full_shelf", bases=["Shelf"], invariants=[_len(">=", "things", 1)])]
+    k = 0
+    for c in mm.classes:
+        for inv in c.invariants:
+            inv.description = f"Zero rule {k}: {inv.description}"
+            k += 1
+    return mm
+
+
+def shuffle_cprims(mm: MetaModel, rng: random.Random) -> None:
+    """Declare the constrained primitives of a random model children-first (the front end
+    accepts forward references between constrained primitives)."""
+    names = [c.name for c in mm.constrained_primitives]
+    if len(names) < 2:
+        return
+    order = list(mm.decl_order) if mm.decl_order else [t.name for t in mm.ordered_our_types()]
+    slots = [i for i, n in enumerate(order) if n in names]
+    present = [order[i] for i in slots]
+    new = list(reversed(present))
+    for i, n in zip(slots, new):
+        order[i] = n
+    mm.decl_order = order
+
+
 # ------------------------------------------------------------------------------------
-def _instances(mm: MetaModel, rng: random.Random, per_class: int, astral: bool):
+def _instances(mm: MetaModel, rng: random.Random, per_class: int, astral: bool, n_mutants: int = 5):
     ig = jg.InstanceGen(mm, rng, astral=astral)
     insts, meta = [], []
     for c in mm.classes:
         if c.is_abstract or c.is_implementation_specific:
             continue
-        for _ in range(per_class):
-            i = ig.try_instance(c)
+        # boundary instances first (every length at its minimum / maximum), then random ones
+        for boundary in ["lo", "hi"] + [None] * per_class:
+            i = ig.try_instance(c, boundary=boundary)
             if i is None:
                 continue
             base = len(insts)
             insts.append(i)
             meta.append({"role": "valid"})
-            for m in jg.constraint_mutants(mm, i, rng, 5):
+            for m in jg.constraint_mutants(mm, i, rng, n_mutants, ig=ig):
                 insts.append(m.pop("inst"))
                 m["role"] = "mutant"
                 m["base"] = base
@@ -196,15 +332,19 @@ def run(ctx: lib.Ctx, prop: str) -> None:
     want11 = prop == "C11"
     n_models = ctx.n(4, 60)
     per_class = ctx.n(5, 10)
-    models: List[Tuple[str, MetaModel, bool]] = [(name, mm, False) for name, mm in corpus()]
+    models: List[Tuple[str, MetaModel, bool]] = [(name, mm, False) for name, mm in corpus(rng)]
     prof = jg.profile()
     for k in range(n_models):
         astral = k % 4 == 3
-        models.append((f"random-{k}", mmg.random_metamodel(rng, prof), astral))
+        rmm = mmg.random_metamodel(rng, prof)
+        if k % 2 == 1:
+            shuffle_cprims(rmm, rng)
+        models.append((f"random-{k}", rmm, astral))
 
     entries, metas = [], []
     for name, mm, astral in models:
-        insts, meta = _instances(mm, rng, per_class, astral)
+        is_corpus = not name.startswith("random-")
+        insts, meta = _instances(mm, rng, 3 if is_corpus else per_class, astral, 14 if is_corpus else 5)
         entries.append({"model_text": mmg.render_source(mm),
                         "snippets_jsonschema": mmg.synth_snippets(mm, "jsonschema"),
                         "snippets_python": mmg.synth_snippets(mm, "python"), "instances": insts})
